@@ -35,6 +35,10 @@ import (
 	"verif/harness/vlib"
 )
 
+// postTmpl: a host state after RequireHeight (the synthetic accumulators are placed in it for the
+// "supplement must be empty" clause)
+var postTmpl consensus.State
+
 // ibCases: the in-block probe cases printed by TLC, per shape of the creating transaction (read-only after start)
 var ibCases map[ibShape][]ibDesc
 
@@ -55,7 +59,7 @@ CONSTANTS
   NF = %d
   Modes = {0, 1}
   Full = %s
-INVARIANTS CountMatches RootsMatchNaive ProofsMatchNaive MemberSound SupplementSound HistorySound
+INVARIANTS CountMatches RootsMatchNaive ProofsMatchNaive MemberSound SupplementSound HistorySound CarrierSound
 CHECK_DEADLOCK FALSE
 `, maxH, maxAdd, maxLeaves, minInit, maxInit, nfModel, map[bool]string{true: "TRUE", false: "FALSE"}[full])
 }
@@ -76,12 +80,13 @@ func hostTemplate() (consensus.State, *chain.Keyring) {
 }
 
 type slice struct {
-	name    string
-	cfg     string
-	o       judgeOpts
-	thin    bool
-	cases   map[string][]*mcase
-	tlcWall time.Duration
+	name      string
+	cfg       string
+	o         judgeOpts
+	thin      bool
+	cases     map[string][]*mcase
+	tlcWall   time.Duration
+	formsSeen bool
 }
 
 // genCases runs TLC on one configuration of Membership.tla: the invariants (MemberSound among them) are
@@ -89,6 +94,24 @@ type slice struct {
 func genCases(c *vlib.Ctx, s *slice) {
 	res := c.MustTLC(vlib.TLCOpts{SpecDirs: []string{"acc"}, Module: "Membership", ConfText: s.cfg, Workers: 8, Timeout: 25 * time.Minute, Xss: "64m"})
 	s.tlcWall = res.Wall
+	for _, ln := range res.Lines {
+		if strings.HasPrefix(ln, "CF ") {
+			var cf struct {
+				Forms []string `json:"forms"`
+				Post  string   `json:"post"`
+			}
+			if err := json.Unmarshal([]byte(vlib.UnquoteTLA(strings.TrimPrefix(ln, "CF "))), &cf); err != nil {
+				c.Fatal("carrier forms do not parse: %v", err)
+			}
+			sort.Strings(cf.Forms)
+			mine := slices.Clone(carrierForms)
+			sort.Strings(mine)
+			if !slices.Equal(cf.Forms, mine) || cf.Post != "empty-supplement-only" {
+				c.Fatal("the specification's carrier forms %v (%s) are not the harness's %v", cf.Forms, cf.Post, mine)
+			}
+			s.formsSeen = true
+		}
+	}
 	cs, err := parseCases(res.Lines)
 	if err != nil {
 		c.Fatal("%s: %v", s.name, err)
@@ -181,6 +204,8 @@ func main() {
 		slices_ = append(slices_, &slice{name: "forests 0..5", cfg: memCfg(0, 5, 3, false), o: judgeOpts{supp: true, lean: true}})
 	}
 	tmpl, K := hostTemplate()
+	postTmpl = chain.NewSim(chain.Params{MatDelay: 1, AllowH: 0, RequireH: 1, EphH: 0, FoundH: 100, Reward: 500,
+		GenSC: []chain.AbsOut{{Val: 600000, Addr: "A"}}, GenSF: []chain.AbsOut{{Val: 10000, Addr: "A"}}}).CS
 	ready := make(chan *slice, 1)
 	go func() {
 		for _, s := range slices_ {
@@ -194,6 +219,9 @@ func main() {
 	for s := range ready {
 		nCases += replayCases(c, st, s, tmpl, K, &cross)
 		tlcWall += s.tlcWall
+		if s.name == "full 0..3" && !s.formsSeen {
+			c.Infra("the Full configuration did not print the carrier forms")
+		}
 		if s.name == "full 0..3" && cross == 0 {
 			c.Infra("vacuity: no concrete probe of the Full configuration was compared")
 		}
@@ -254,7 +282,7 @@ func finish(c *vlib.Ctx, st *stats, traces int64) {
 	for _, n := range st.asks {
 		evals += n
 	}
-	for _, d := range []string{"shim", "vte", "v2txn", "supp", "supp-used", "supp-placed", "supp-used-placed", "inblock", "inblock-block"} {
+	for _, d := range []string{"shim", "vte", "v2txn", "supp", "supp-used", "supp-placed", "supp-used-placed", "supp-form", "supp-form-placed", "supp-post-require", "inblock", "inblock-block"} {
 		if st.asks[d] == 0 {
 			c.Infra("vacuity: door %s never used", d)
 		}
@@ -299,6 +327,20 @@ func finish(c *vlib.Ctx, st *stats, traces int64) {
 		if st.ibClasses[cl] == 0 {
 			c.Infra("vacuity: in-block probe class %s never presented", cl)
 		}
+	}
+	// every form of the carrier block, with the element among the expiring contracts; per-transaction lists on
+	// the other form that has v1 transactions; the empty-supplement rule after RequireHeight
+	for _, f := range carrierForms {
+		need = append(need, "supp-form:expiring-contract@"+f)
+		if f != "v2-data-v1-txns" {
+			need = append(need, "supp-form-placed:expiring-contract/g-first@"+f, "supp-form-placed:expiring-contract/e-first@"+f)
+		}
+	}
+	for _, l := range []string{"siacoin-input", "siafund-input", "revised-contract", "storage-proof-contract"} {
+		need = append(need, "supp-form:"+l+"@v1-txns-no-v2-data")
+	}
+	if v := st.verdicts["supp-post-require:expiring-contract"]; v == nil || v[0] == 0 || st.postGenuine == 0 {
+		c.Infra("vacuity: no (genuine) v1 contract presented in a supplement after RequireHeight (%v, genuine %d)", v, st.postGenuine)
 	}
 	for _, d := range need {
 		v := st.verdicts[d]
